@@ -39,9 +39,10 @@ REVERSIBLE = {
     "knock_out_gene", "set_functional", "knock_out_model_genes", "remove_genes", "rename_genes",
     "medium", "build_from_string", "optimize", "slim_optimize", "enter", "exit", "exit_exc",
     "copy", "deepcopy", "pickle", "rxn_copy", "rxn_arith", "helper", "merge", "det_mutate", "removed_mutate", "repair", "config_bounds", "solver",
+    "ctx_removed_edit",
 }
 LIFECYCLE = {"copy", "deepcopy", "pickle"}
-NO_CONTENT_CHANGE = {"optimize", "slim_optimize", "repair", "solver", "tolerance", "rxn_copy", "rxn_arith", "removed_mutate"}
+NO_CONTENT_CHANGE = {"optimize", "slim_optimize", "repair", "solver", "tolerance", "rxn_copy", "rxn_arith", "removed_mutate", "ctx_removed_edit"}
 
 
 class _Null(io.TextIOBase):
@@ -220,6 +221,7 @@ class Hist:
         S.DBLMAX_AS_INF = False
         self.detached = {}
         self.removed = {}  # (actor index, rid) -> (removed Reaction object, reference spec at removal time)
+        self.ctx_removed = {}  # (actor index, rid) -> Reaction object removed while a context was open (it comes back on exit)
         self.changed = False
         spec = self.cfg["model"]
         model = build_model(spec)
@@ -893,6 +895,23 @@ class Hist:
             for rid, o in objs.items():
                 if rid in specs:
                     self.removed[(self.actors.index(a), rid)] = (o, specs[rid])
+        elif a.model._contexts:
+            for rid, o in objs.items():
+                if o.model is None:
+                    self.ctx_removed[(self.actors.index(a), rid)] = o
+
+    def do_ctx_removed_edit(self, a, op, env):
+        """A reaction object that was removed inside the open context is edited while it is detached (no context is attached to it: the
+        edit is permanent).  When the context is left the reaction comes back - with its current bounds, in the solver too."""
+        key = (self.actors.index(a), op["rid"])
+        obj = self.ctx_removed.get(key)
+        if obj is None or obj.model is not None or not a.model._contexts or a.model.reactions.has_id(op["rid"]):
+            self.ctx_removed.pop(key, None)
+            raise Skip("no reaction object removed inside the open context")
+        if not (op["lb"] <= -1500 and op["ub"] >= 1500):
+            raise Skip("only widening edits (see the generator)")
+        obj.bounds = (op["lb"], op["ub"])
+        self.stats["probe:reaction_removed_in_context_edited_while_detached"] += 1
 
     def _rxn_spec(self, ref, rid):
         x = ref.rxns[rid]
@@ -1600,18 +1619,18 @@ ALL_KINDS = {
     "remove_genes": 2, "rename_genes": 1, "medium": 2, "build_from_string": 1, "optimize": 2,
     "slim_optimize": 2, "repair": 1, "solver": 1, "tolerance": 1, "compartments": 1, "add_groups": 1,
     "remove_groups": 1, "enter": 0, "exit": 0, "exit_exc": 0, "copy": 0, "deepcopy": 0, "pickle": 0,
-    "rxn_copy": 1, "rxn_arith": 1, "edit_dict": 1, "restart": 0, "helper": 1, "merge": 1, "readd_reaction": 3, "det_mutate": 1, "prune": 1, "config_bounds": 1, "group_edit": 1, "removed_mutate": 1,
+    "rxn_copy": 1, "rxn_arith": 1, "edit_dict": 1, "restart": 0, "helper": 1, "merge": 1, "readd_reaction": 3, "det_mutate": 1, "prune": 1, "config_bounds": 1, "group_edit": 1, "removed_mutate": 1, "ctx_removed_edit": 0,
 }
 
 PROP_BIAS = {
-    "C01": {"removed_mutate": 2, "helper": 2, "merge": 2, "solver": 3, "copy": 1, "pickle": 1, "deepcopy": 1, "enter": 2, "exit": 3, "exit_exc": 1},
+    "C01": {"ctx_removed_edit": 3, "removed_mutate": 2, "helper": 2, "merge": 2, "solver": 3, "copy": 1, "pickle": 1, "deepcopy": 1, "enter": 2, "exit": 3, "exit_exc": 1},
     "C02": {},
     "C03": {"enter": 6, "exit": 6, "exit_exc": 2, "helper": 3, "merge": 2, "rename_rxn": 0, "rename_met": 0, "repair": 1, "solver": 0,
             "tolerance": 0, "compartments": 0, "add_groups": 0, "remove_groups": 0, "set_attr": 0,
             "edit_dict": 0},
     "C07": {"knock_out_gene": 12, "knock_out_model_genes": 8, "knock_out_rxn": 4, "set_functional": 4,
             "set_rule": 6, "enter": 2, "exit": 3, "removed_mutate": 3, "remove_reactions": 4, "copy": 1, "pickle": 1, "deepcopy": 1},
-    "C04": {"optimize": 14, "slim_optimize": 8, "solver": 2, "set_bounds": 8, "set_objective": 4, "set_direction": 3,
+    "C04": {"ctx_removed_edit": 3, "optimize": 14, "slim_optimize": 8, "solver": 2, "set_bounds": 8, "set_objective": 4, "set_direction": 3,
             "set_obj_coef": 3, "add_mets": 4, "add_reactions": 3, "remove_reactions": 2, "add_cons": 2, "add_var": 1,
             "enter": 1, "exit": 2, "copy": 1, "pickle": 1, "add_boundary": 3, "knock_out_gene": 2, "imul": 2},
     "C11": {"restart": 10, "edit_dict": 4, "set_attr": 4, "set_bounds": 6, "set_direction": 3, "set_objective": 3,
@@ -2138,6 +2157,14 @@ def gen_op(rng, H, sw):
             op.update(how="cancel", j=rng.randint(0, 3))
         elif rng.random() < 0.3:
             op.update(how="rename", new=_fresh("REN", ref.rxns, rng))
+    elif k == "ctx_removed_edit":
+        cands = sorted(r for (i, r) in H.ctx_removed if i == ai and r not in ref.rxns)
+        if not cands or depth == 0:
+            return gen_fallback(op, rid, rng)
+        # wider than any bound the history can have set: undo entries recorded earlier in the block (bound restores on this reaction)
+        # are replayed after the reaction is back and must not collide with the new bounds
+        lb, ub = rng.choice([-2000, -3000, -1500]), rng.choice([2000, 1500, 4000])
+        op.update(rid=rng.choice(cands), lb=lb, ub=ub)
     elif k == "det_mutate":
         dets = sorted(H.detached)
         if not dets:
